@@ -1038,5 +1038,5 @@ func genC02(o *hx.Out, r *hx.Rng, tier string, replay string) error {
 		}
 	}
 	_ = math.Pi
-	return nil
+	return c02DupLabelled(o, r.Split(), dir, tier) // c02dup.go: the same path twice plain and once labelled
 }
